@@ -1,6 +1,6 @@
 // @module crate=glaredb_core parent=src/optimizer/expr_rewrite/like.rs
 // @encodes can_str_compare, is_prefix_pattern, is_suffix_pattern, is_contains_pattern, has_escape, str::trim_matches('%') as applied by LikeRewrite::rewrite
-// @bounds pattern and subject are symbolic byte strings over the alphabet {a, é (2 bytes), %, _, \}, valid UTF-8; quick: |p| <= 3, |s| <= 3; thorough: |p| <= 4, |s| <= 4; unwind 8
+// @bounds patterns: EVERY constant pattern over the alphabet {a, é (2 bytes), %, _, \} up to 3 bytes (4 in thorough), enumerated concretely inside the harness (259 / 1555 patterns; the pattern is query text); subject: symbolic valid UTF-8 string over the same alphabet, symbolic length <= 3 (4); nested loops of at most 7 iterations, unwind 8
 //! C20 / C02: whenever the optimizer's LIKE classifiers accept a constant pattern, the
 //! predicate it is rewritten to (=, starts_with, ends_with, contains on the pattern with
 //! '%' trimmed) accepts exactly the strings the pattern denotes. The denotation is a
@@ -134,38 +134,66 @@ fn classify(p: &str) -> Class {
     }
 }
 
+const ALPHABET: [u8; 6] = [b'a', 0xC3, 0xA9, b'%', b'_', b'\\'];
+
 macro_rules! like_class {
     ($name:ident, $class:expr, $n:expr, $desc:expr) => {
         #[kani::proof]
         #[kani::unwind(8)]
         fn $name() {
-            let pb: [u8; $n] = kani::any();
+            // subject: symbolic valid UTF-8 string over the alphabet, symbolic length <= $n
             let sb: [u8; $n] = kani::any();
-            let plen: usize = kani::any();
             let slen: usize = kani::any();
-            kani::assume(plen <= $n && slen <= $n);
+            kani::assume(slen <= $n);
             let mut i = 0;
             while i < $n {
-                kani::assume(alpha(pb[i]) && alpha(sb[i]));
+                kani::assume(alpha(sb[i]));
                 i += 1;
             }
-            kani::assume(utf8_ok(&pb[..plen]) && utf8_ok(&sb[..slen]));
-            let p = unsafe { core::str::from_utf8_unchecked(&pb[..plen]) };
+            kani::assume(utf8_ok(&sb[..slen]));
             let s = &sb[..slen];
-            kani::assume(classify(p) == $class);
-            kani::cover!(plen == $n);
-            let want = like_ref(s, p.as_bytes());
-            let t = p.trim_matches('%').as_bytes();
-            let got = match $class {
-                Class::Eq => bytes_eq(s, p.as_bytes()),
-                Class::Prefix => starts_with(s, t),
-                Class::Suffix => ends_with(s, t),
-                Class::Contains => contains(s, t),
-                Class::None => want,
-            };
-            kani::cover!(want);
-            kani::cover!(!want);
-            assert!(got == want, $desc);
+            // patterns: every constant pattern over the alphabet up to $n bytes, enumerated concretely
+            // (a constant LIKE pattern is part of the query text); the classifiers then run on constants
+            let mut checked = 0usize;
+            let mut plen = 0usize;
+            while plen <= $n {
+                let mut a0 = 0;
+                while a0 < (if plen > 0 { 6 } else { 1 }) {
+                    let mut a1 = 0;
+                    while a1 < (if plen > 1 { 6 } else { 1 }) {
+                        let mut a2 = 0;
+                        while a2 < (if plen > 2 { 6 } else { 1 }) {
+                            let mut a3 = 0;
+                            while a3 < (if plen > 3 { 6 } else { 1 }) {
+                                let pb = [ALPHABET[a0], ALPHABET[a1], ALPHABET[a2], ALPHABET[a3]];
+                                if utf8_ok(&pb[..plen]) {
+                                    let p = unsafe { core::str::from_utf8_unchecked(&pb[..plen]) };
+                                    if classify(p) == $class {
+                                        let want = like_ref(s, p.as_bytes());
+                                        let t = p.trim_matches('%').as_bytes();
+                                        let got = match $class {
+                                            Class::Eq => bytes_eq(s, p.as_bytes()),
+                                            Class::Prefix => starts_with(s, t),
+                                            Class::Suffix => ends_with(s, t),
+                                            Class::Contains => contains(s, t),
+                                            Class::None => want,
+                                        };
+                                        assert!(got == want, $desc);
+                                        checked += 1;
+                                    }
+                                }
+                                a3 += 1;
+                            }
+                            a2 += 1;
+                        }
+                        a1 += 1;
+                    }
+                    a0 += 1;
+                }
+                plen += 1;
+            }
+            assert!(checked > 0, "some pattern of this class exists within the bound");
+            kani::cover!(slen == $n);
         }
     };
 }
